@@ -70,6 +70,9 @@ type ledGen struct {
 	maxReorg int
 	// C01 (see gen_led_c01.go): the chain the wallet has synced, mirrored to count notification classes
 	synced []string
+	// > 0: the history lowers consensus.MASSIP0002WarmUpHeight to this value (op `warmup`): binding outputs at or above
+	// it are spent under the MASSIP-2 sequence rule (C10 withdraw_sequence, C03 ScriptMASSip2)
+	warm int
 	// optional hook run on every transaction just before it is emitted (nil = none; set by the txb generator,
 	// which must keep the amounts of a wallet's coins pairwise distinct: see txbGen.uniqAmounts)
 	fixTx func(t *gTx)
@@ -90,6 +93,9 @@ func newLedGen(g *Gen, eng string) *ledGen {
 func (l *ledGen) start(nWallets int) {
 	l.g.Reset()
 	l.op("params", "params %d %d", l.cbm, l.minFr)
+	if l.warm > 0 {
+		l.op("warmup", "warmup %d", l.warm)
+	}
 	for i := 1; i <= nWallets; i++ {
 		w := fmt.Sprintf("W%d", i)
 		l.wallets = append(l.wallets, w)
@@ -601,7 +607,11 @@ func (l *ledGen) observe(full bool) {
 			if l.r.Intn(2) == 0 {
 				lt = 1 + l.r.Intn(500)
 			}
-			l.op("q-wseq-"+c.cls, "wseq %s %s %d", w, c.key(), lt)
+			cl := c.cls
+			if l.warm > 0 && c.height >= l.warm && (c.cls == "bind" || c.cls == "bind22") {
+				cl += "-ip2" // MASSIP-2 branch of constructTxIn: sequence MASSIP0002BindingLockedPeriod
+			}
+			l.op("q-wseq-"+cl, "wseq %s %s %d", w, c.key(), lt)
 			if l.r.Intn(2) == 0 {
 				break
 			}
@@ -624,6 +634,9 @@ func genLed(g *Gen) {
 			continue
 		}
 		l := newLedGen(g, "led")
+		if g.Prop == "C10" && h%4 == 1 {
+			l.warm = 2 + h/4%5 // every fourth C10 history runs with a MASSIP-2 warm-up height of 2..6
+		}
 		l.start(1 + g.Rng.Intn(3))
 		steps := 12 + g.Rng.Intn(g.Scale(30, 70))
 		lazy := g.Rng.Intn(3) == 0 // notifications processed late
